@@ -29,7 +29,7 @@ def parse(data: bytes):
     from xknx.exceptions import CouldNotParseKNXIP, IncompleteKNXIPFrame
     from xknx.knxip import KNXIPFrame
 
-    signal.setitimer(signal.ITIMER_REAL, 1.0)
+    signal.setitimer(signal.ITIMER_VIRTUAL, 2.0)   # CPU time of this process: a busy machine does not trip the watchdog
     try:
         _f, rest = KNXIPFrame.from_knx(data)
         return "frame", len(data) - len(rest)
@@ -44,7 +44,7 @@ def parse(data: bytes):
     except Exception as ex:  # noqa: BLE001 - undeclared: recorded as its own outcome class
         return "other:" + type(ex).__name__, 0
     finally:
-        signal.setitimer(signal.ITIMER_REAL, 0)
+        signal.setitimer(signal.ITIMER_VIRTUAL, 0)
 
 
 def inputs(ck):
@@ -86,7 +86,7 @@ def inputs(ck):
 
 def run(ck):
     ck.assume("'incomplete' is judged at header level: legitimate iff the octets are a proper prefix of a well-formed header or fewer octets than the announced total length are present")
-    old = signal.signal(signal.SIGALRM, _alarm)
+    old = signal.signal(signal.SIGVTALRM, _alarm)
     try:
         ins = inputs(ck)
         cases = []
@@ -95,7 +95,7 @@ def run(ck):
             cases.append({"t": "parse", "n": len(data), "h": list(data[:6]), "out": out, "consumed": consumed, "src": name, "kind": kind,
                           "hex": data.hex() if len(data) <= 64 else data[:64].hex() + "..."})
     finally:
-        signal.signal(signal.SIGALRM, old)
+        signal.signal(signal.SIGVTALRM, old)
     send = [{k: v for k, v in c.items() if k not in ("hex",)} for c in cases]
     res = tlc.batch(ck, "io/KnxIpFrame_Judge", send, min_per_shard=4000)
     for idx in sorted(res.bad):
@@ -125,12 +125,12 @@ def replay(ck, path):
     import json
 
     d = json.loads(open(path).read())["replay"]
-    old = signal.signal(signal.SIGALRM, _alarm)
+    old = signal.signal(signal.SIGVTALRM, _alarm)
     try:
         data = bytes.fromhex(d["hex"])
         out, consumed = parse(data)
     finally:
-        signal.signal(signal.SIGALRM, old)
+        signal.signal(signal.SIGVTALRM, old)
     c = {"t": "parse", "n": len(data), "h": list(data[:6]), "out": out, "consumed": consumed, "src": "", "kind": ""}
     res = tlc.batch(ck, "io/KnxIpFrame_Judge", [c])
     print(c, "rejected" if res.bad else "accepted")
